@@ -172,13 +172,14 @@ def project(kind, case, step, op, line):
 
 
 P = histprop.HistProp(
-    "C18", [], project=project, extra_gen=gen_cases, oracle=oracle,
+    "C18", [], project=project, extra_gen=gen_cases, oracle=oracle, builds=(False, True),
     rule=("a fixture folder with nested, dotted, multi-byte and prefix-sharing names (a, ab, a.b, a.txt, ab.c, .x, 'x.', U+00E9, "
           "U+65E5, 'a b.txt', an empty file, a 9000-byte file, a non-UTF-8 file) embedded with rust-embed; every public observer "
           "on every embedded file, implied directory, the root, absent siblings, prefixes and extensions of names and paths "
           "below files, on EmbeddedFS and on PhysicalFS over the same folder (oracle: identical existence, type, length, bytes, "
           "listings, walks); read/seek scripts on embedded handles; every mutating call refused as not-supported with an "
           "unchanged stat-only tree; an empty embedded folder; copies out of the embedded filesystem; all compared with the model"),
-    assumptions=["rust-embed delivers the files of the folder (debug-embed and release embedding behave alike)"])
+    assumptions=["rust-embed delivers the files of the folder; the harness embeds with debug-embed and is run as a debug AND as a "
+                 "release build, so both ways rust-embed hands out names (owned, borrowed) are exercised"])
 generate, corpus, run_and_compare, known = P.generate, P.corpus, P.run_and_compare, P.known
 RULE, ASSUMPTIONS, BUILDS = P.RULE, P.ASSUMPTIONS, P.BUILDS
